@@ -424,7 +424,9 @@ func (e *Explorer) record(r *PathResult) {
 	switch r.Kind {
 	case "ok":
 		st.Paths++
-		if len(st.Samples) < 16 || (st.Paths%97 == 0 && len(st.Samples) < 64) {
+		// VX_SAMPLE_ALL=1 (development: full native re-validation of one
+		// harness, together with a large "replays" value) keeps every path
+		if len(st.Samples) < 16 || (st.Paths%97 == 0 && len(st.Samples) < 64) || os.Getenv("VX_SAMPLE_ALL") == "1" {
 			st.Samples = append(st.Samples, r)
 		}
 	case "discard":
